@@ -219,6 +219,7 @@ def run_apalache(module: str, *, init: str, nxt: str, inv: str, length: int, nam
     cmd = ["apalache-mc", "check", f"--init={init}", f"--next={nxt}", f"--inv={inv}", f"--length={length}", f"--out-dir={wd}", str(SPEC / f"{module}.tla")]
     e = dict(os.environ)
     e.pop("JAVA_TOOL_OPTIONS", None)
+    e["TMPDIR"] = str(wd)                          # the launcher's `mktemp -d -t SANY...` (java.io.tmpdir) then lands in .work, not /tmp
     try:
         p = subprocess.run(cmd, cwd=str(wd), env=e, capture_output=True, text=True, timeout=timeout)
     except (subprocess.TimeoutExpired, FileNotFoundError) as ex:
@@ -241,7 +242,9 @@ def write_json(name: str, fname: str, obj) -> Path:
 
 
 def sany(module: str) -> None:
-    cmd = ["java", "-cp", JAR, "tla2sany.SANY", str(SPEC / f"{module}.tla")]
+    jt = WORK / "sany_jt"
+    jt.mkdir(parents=True, exist_ok=True)
+    cmd = ["java", f"-Djava.io.tmpdir={jt}", "-cp", JAR, "tla2sany.SANY", str(SPEC / f"{module}.tla")]
     p = subprocess.run(cmd, cwd=str(SPEC), capture_output=True, text=True, timeout=120)
     if p.returncode != 0 or "Semantic errors" in p.stdout or "***Parse Error***" in p.stdout or "Fatal" in p.stdout:
         raise MachineryError(f"SANY failed on {module}:\n{p.stdout[-2000:]}{p.stderr[-500:]}")
